@@ -20,11 +20,11 @@ use std::sync::Arc;
 use core::marker::PhantomData;
 
 // ---- stubs of external / out-of-unit types (trusted, listed in evidence) --------------------------
-trait MiniscriptKey: Sized + Clone {
-    type Sha256: Clone;
-    type Hash256: Clone;
-    type Ripemd160: Clone;
-    type Hash160: Clone;
+trait MiniscriptKey: Sized + Clone + Eq {
+    type Sha256: Clone + Eq;
+    type Hash256: Clone + Eq;
+    type Ripemd160: Clone + Eq;
+    type Hash160: Clone + Eq;
     spec fn spec_is_uncompressed(&self) -> bool;
     fn is_uncompressed(&self) -> (r: bool) ensures r == self.spec_is_uncompressed();
     spec fn spec_is_x_only_key(&self) -> bool;
@@ -33,13 +33,13 @@ trait MiniscriptKey: Sized + Clone {
 mod hash160 {
     use vstd::prelude::*;
     verus!{
-    #[derive(Clone, Copy)]
+    #[derive(Clone, Copy, PartialEq, Eq)]
     pub struct Hash(pub [u8; 20]);
     }
 }
-#[derive(Clone, Copy)]
+#[derive(Clone, Copy, PartialEq, Eq)]
 struct AbsLockTime(u32);
-#[derive(Clone, Copy)]
+#[derive(Clone, Copy, PartialEq, Eq)]
 struct RelLockTime(u32);
 impl AbsLockTime {
     spec fn consensus(self) -> u32 { self.0 }
